@@ -224,6 +224,35 @@ def run(ck: Check):
                 ck.disagree("gumbel_hard training output on Boolean inputs is not Boolean (not a single gate per neuron)",
                             dict(case, largest=float(y.max()), outside=int((torch.minimum(y.abs(), (y - 1).abs()) > 0.05).sum())),
                             signature={"layer": name, "param": "raw", "mode": "gumbel_hard", "what": "single-gate"})
+    # Walsh layers converted to 16 bits: a 16-bit uniform draw is exactly 0 once in a few hundred / thousand draws (logistic noise -inf)
+    # and cannot resolve the tails.  A node with the constant form +30 is 1 with probability 1 - 1e-13, one with form -6 is 1 with
+    # probability 0.00247, and every output is finite also at a temperature beyond the binary32 range
+    n_w = 400000 if ck.tier == "quick" else 4000000
+    for dt in (torch.bfloat16, torch.float16):
+        for form, tau in ((30.0, 1.0), (-6.0, 1.0), (10.0, 1e39), (30.0, 0.25)):
+            for mode in ("gumbel_hard", "gumbel_soft"):
+                torch.manual_seed(ck.seed + 55)
+                d = LogicDense(2, n_w, device="cpu", parametrization="walsh", forward_sampling=mode, temperature=tau)
+                d.indices = (torch.zeros(n_w, dtype=torch.long), torch.ones(n_w, dtype=torch.long))
+                with torch.no_grad():
+                    d.weight.zero_()
+                    d.weight[:, 0] = form
+                d = d.to(dt).train()
+                case = {"kind": "walsh-16-bit", "dtype": str(dt), "form": form, "tau": tau, "mode": mode, "neurons": n_w}
+                ck.case(case, nontrivial=True, kind="walsh-16-bit")
+                with torch.no_grad():
+                    y = d(torch.ones(1, 2, dtype=dt)).float().reshape(-1)
+                if not bool(torch.isfinite(y).all()) or float(y.min()) < 0 or float(y.max()) > 1:
+                    ck.disagree("Gumbel-mode output of a 16-bit Walsh layer is not a finite value in [0,1]", dict(case, nan=int(torch.isnan(y).sum())),
+                                signature={"layer": "dense", "param": "walsh", "mode": mode, "what": "range-16-bit"})
+                    continue
+                if mode == "gumbel_hard":
+                    p = 1 / (1 + math.exp(-form))
+                    ones = float((y > 0.5).float().sum())
+                    sd = math.sqrt(max(n_w * p * (1 - p), 1e-9))
+                    if abs(ones - n_w * p) > 6 * sd + 0.5:
+                        ck.disagree("hard Gumbel sample of a 16-bit Walsh layer: the frequency of 1 is not logistic(form) (noise drawn with 8 / 11 random bits)",
+                                    case, expected=p, observed=ones / n_w, signature={"what": "frequency-16-bit", "layer": "dense"})
     # every tree level of a Walsh convolution samples: a node whose form is the constant c (coefficients (c,0,0,0)) is 1 with
     # probability logistic(c) in gumbel_hard, whatever its inputs and whatever the temperature - checked at the root of depth-1
     # and depth-2 trees (the leaves carry random coefficients), and switching the sampling mode after a training forward is honoured
